@@ -368,6 +368,24 @@ class CertProperty:
             progs.append({'name': 'metaesc%d' % i, 'inputs': ['1.5', '1x5', 'a(b'],
                           'modes': [{'name': 'M', 'patterns': [{'p': '[0-9]+' + e + '[0-9]+', 't': 1}, {'p': '[0-9]+', 't': 2}, {'p': '[a-z]+', 't': 3},
                                                                {'p': 'q', 't': 4, 'la': {'pos': True, 'p': e}}], 'transitions': []}]})
+        # alternatives that match only the empty word without being the literally empty alternative (empty groups, a{0},
+        # nested and concatenated empty groups), in every position of an alternation that sits inside a concatenation or
+        # is a lookahead: the empty alternative must survive next to the non-empty ones
+        empties = ['()', '(?:)', '(())', '()()', 'a{0}', '', '(|)']
+        k = 0
+        for e in empties:
+            for shape in ['(%s|a)b', '(a|%s)b', '(%s|%s|a)b', '(?:%s|a|c)b', 'c(%s|a)', '(%s|a)*b', '(a|%s|c)+b']:
+                if tier == 'quick' and k % 3 != 0:
+                    k += 1
+                    continue
+                pat = shape.replace('%s', e)
+                if k % 4 == 3:
+                    pats = [{'p': 'x', 't': 7, 'la': {'pos': k % 8 < 4, 'p': pat}}, {'p': '[abcx]', 't': 8}]
+                else:
+                    pats = [{'p': pat, 't': 1}, {'p': '[abc]', 't': 2}]
+                progs.append({'name': 'emptyalt%d' % k, 'modes': [{'name': 'M', 'patterns': pats, 'transitions': []}],
+                              'inputs': ['b ab cb', 'xb xab c ca', 'aacb']})
+                k += 1
         # alternations that list an alternative twice among alternatives sharing prefixes (keyword lists written by
         # hand or generated): duplicate branches give the subset construction identical NFA paths and the minimizer
         # groups with parallel edges
